@@ -14,7 +14,7 @@ import itertools
 from ..core import AnalysisError, norm, dotted, calls_in, walk_no_nested, parent, enclosing_stmt
 from ..flow import Flow, lexically_inside
 from ..order import Interp, Model
-from ..cfg import EXIT, RAISE, ENTRY
+from ..cfg import stmt_before, EXIT, RAISE, ENTRY
 
 FILESET = "typhon/files/fileset.py"
 EXPECT = {"C10.fifo": 3, "C10.bound": 2, "C10.flush": 1, "C10.ordered": 2, "C10.args": 3, "C10.errwrap": 2, "C10.collect": 3, "C10.align": 8}
@@ -437,7 +437,7 @@ def rule_align(ctx):
            "(primary content, secondary content), each paired with its own FileInfo under return_info", node=y, func=f)
     from ..flow import guard_chain
     yst = enclosing_stmt(y)
-    skips = [st_ for st_ in ip.body if isinstance(st_, ast.If) and any(isinstance(n_, ast.Continue) for n_ in st_.body) and st_.lineno < yst.lineno
+    skips = [st_ for st_ in ip.body if isinstance(st_, ast.If) and any(isinstance(n_, ast.Continue) for n_ in st_.body) and stmt_before(f.node, st_, yst)
              and any(isinstance(n_, ast.Name) and n_.id in (pdat, sdat) for n_ in ast.walk(st_.test))]
     bad = None
     for st_ in skips:
